@@ -137,3 +137,16 @@ Theorem C02_positions_combined_leaves : forall st s cols,
   gi = advance 1 0 (source s) /\ st' = st.
 Proof. exact CombLeafTree.rshape2_stream_good. Qed.
 Print Assumptions C02_positions_combined_leaves.
+
+(* the checker accepts the model also with combined-map leaves and with CachedSource nodes after
+   ANY warm-up calls (no ReplaceSource with replacements above a cache) *)
+From RS Require Proofs.WarmTreeDefs Proofs.ChkMoreComb Proofs.ChkMoreWarmC02.
+Theorem C02_checker_combined_leaves : forall s ws,
+  CombLeafTree.rshape2 s = true -> treeA s = true -> rsmall s = true -> chk_C02 s (api_tree s ws) = 0.
+Proof. exact ChkMoreComb.chk_C02_tree2. Qed.
+Print Assumptions C02_checker_combined_leaves.
+
+Theorem C02_checker_warm_caches : forall s, ColdCache.ids_distinct s -> WarmTreeDefs.cls s ->
+  forall ws, chk_C02 s (api_tree s ws) = 0.
+Proof. exact ChkMoreWarmC02.chk_C02_warm. Qed.
+Print Assumptions C02_checker_warm_caches.
